@@ -7,7 +7,7 @@ if ! git diff --quiet; then echo "/repo has local changes"; exit 9; fi
 if ! git apply "$P" 2>/dev/null; then
   if ! patch -p1 --no-backup-if-mismatch -s < "$P"; then echo "PATCH DOES NOT APPLY"; git checkout -- .; find /repo/parglare -name "*.rej" -o -name "*.orig" | xargs -r rm -f; exit 8; fi
 fi
-trap 'cd /repo && git checkout -- . && find /repo/parglare -name "*.rej" -o -name "*.orig" | xargs -r rm -f; find /repo -name "*.pgc" -newer /verif/MANIFEST.json -delete 2>/dev/null' EXIT
+trap 'cd /repo && git checkout -- . && find /repo/parglare -name "*.rej" -o -name "*.orig" | xargs -r rm -f; git -C /repo clean -fdXq -- tests examples 2>/dev/null' EXIT
 git diff --stat | tail -1
 if [ "$D" != "-" ]; then (cd /repo && timeout 120 /venv/bin/python "$D" > /tmp/demo.out 2>&1; echo "demo exit=$? : $(tail -2 /tmp/demo.out | tr '\n' ' ' | cut -c1-200)"); fi
 for pid in "$@"; do
